@@ -19,6 +19,7 @@ import (
 
 	"github.com/pkg/errors"
 
+	"perun.network/go-perun/simhook"
 	"polycry.pt/poly-go/sync"
 )
 
@@ -49,6 +50,7 @@ func NewReceiver() *Receiver {
 
 // Next returns a channel to the next message.
 func (r *Receiver) Next(ctx context.Context) (*Envelope, error) {
+	simhook.Yield("receiver.Next")
 	select {
 	case <-ctx.Done():
 		return nil, errors.Wrap(ctx.Err(), "context closed")
